@@ -609,7 +609,7 @@ func RunCorr(e *Env) {
 	defer g.closeAll()
 	ce := &corrEngine{g: g}
 	rng := e.Rand(11)
-	n := e.Pick(3000, 60000)
+	n := e.Pick(6000, 600000)
 	var cases []CScenario
 	for i := 0; i < n; i++ {
 		cases = append(cases, genCScenario(rng, 1+rng.Intn(5), corrVariants))
